@@ -1,7 +1,7 @@
 """C01 — nothing in an accepted message is silently discarded."""
 import json, os, re
 from common import *
-import mtgen, engine
+import mtgen, engine, layoutgen
 
 PROP = "C01"
 COQ_TARGETS = ["Props/C01.vo"]
@@ -37,7 +37,7 @@ def rule_narrative_truncated(tin, tout):
 
 def rule_field25_slash(tin, tout):
     (t, a), (_, b) = tin, tout
-    return t in ("25", "25A", "25P") and b.startswith("/") and b[1:] == (a[1:] if a.startswith("/") else a)
+    return t in ("25", "25A", "25P") and b.startswith("/") and b.lstrip("/") == a.lstrip("/")
 
 def rule_amount_without_comma(tin, tout):
     (t, a), (_, b) = tin, tout
@@ -58,7 +58,16 @@ def classify_known(known, mt, in_toks, out_toks, text):
     rules = {k["match"]["rule"]: k["id"] for k in known if k.get("match", {}).get("kind") == "token_rule"}
     letter = [k["id"] for k in known if k.get("match", {}).get("kind") == "option_letter"]
     if len(in_toks) != len(out_toks):
-        # the absorbed terminator shows up as an extra trailing "-" line in the last token only
+        return None
+    moved = [k["id"] for k in known if k.get("match", {}).get("kind") == "mt942_13d_first"]
+    if moved and mt == "942" and in_toks and in_toks[0][0] == "13D" and [t for t, _ in in_toks] != [t for t, _ in out_toks]:
+        rest = in_toks[1:]
+        j = [i for i, (t, _) in enumerate(out_toks) if t == "13D"]
+        if len(j) == 1 and out_toks[:j[0]] + out_toks[j[0] + 1:] == [(t, c) for t, c in rest] or \
+           (len(j) == 1 and [t for t, _ in out_toks[:j[0]] + out_toks[j[0] + 1:]] == [t for t, _ in rest]):
+            r = classify_known(known, "x", rest, out_toks[:j[0]] + out_toks[j[0] + 1:], text) if [engine.canon_content(c) for _, c in rest] != [engine.canon_content(c) for _, c in out_toks[:j[0]] + out_toks[j[0] + 1:]] else set()
+            if r is not None:
+                return set(r) | {moved[0]}
         return None
     hits = set()
     for tin, tout in zip(in_toks, out_toks):
@@ -101,7 +110,7 @@ def run(ctx):
             for k in range(nmut):
                 t2, kinds = toks, []
                 for _ in range(rng.choice([1, 1, 1, 2])):
-                    r = mtgen.mutate(rng, t2, rng.choice(["insert_unknown", "dup", "swap", "corrupt", "append", "delete", "dupseq", "dupseq"]))
+                    r = mtgen.mutate(rng, t2, rng.choice(["insert_unknown", "dup", "swap", "corrupt", "append", "delete", "dupseq", "dupseq", "retag", "insert_sibling"]))
                     if r:
                         kinds.append(r[0]); t2 = r[1]
                 if kinds:
@@ -117,6 +126,26 @@ def run(ctx):
                     for n in (caps.get(c, 10) - 1, caps.get(c, 10), caps.get(c, 10) + 1):
                         t2 = toks[:a] + unit * n + toks[b:]
                         msgs.append((c, "\n" + mtgen.render(t2) + "\n")); meta.append(("repeat%d" % n, name, t2))
+    # layout-driven generation: every optional field in/out, every option letter, 0..3 repetitions
+    try:
+        layouts = engine.load_layouts()
+        pool = layoutgen.harvest_pool(layouts, mtgen.load_seeds())
+        g = layoutgen.Gen(layouts, pool, rng)
+        ngen = 120 if ctx.tier == "thorough" else 25
+        for c in mtgen.SUPPORTED:
+            for k in range(ngen):
+                g.p_opt = rng.choice([0.2, 0.5, 0.8])
+                r = g.gen("MT" + c)
+                if r is None:
+                    continue
+                toks, trace = r
+                msgs.append((c, "\n" + mtgen.render(toks) + "\n")); meta.append(("layoutgen", "gen%d" % k, toks))
+                if k % 3 == 0:
+                    m2 = mtgen.mutate(rng, toks, rng.choice(["retag", "insert_sibling", "swap", "dup", "append", "delete"]))
+                    if m2:
+                        msgs.append((c, "\n" + mtgen.render(m2[1]) + "\n")); meta.append(("layoutgen+" + m2[0], "gen%d" % k, m2[1]))
+    except Exception as e:   # a layout the generator cannot walk is not a verdict
+        ctx.notes.append("layoutgen: %r" % (e,))
     # regression corpus
     for cdir in (os.path.join(ROOT, "corpus", PROP), os.path.join(ROOT, "corpus", PROP, "fixed")):
         for f in sorted(os.listdir(cdir)) if os.path.isdir(cdir) else []:
@@ -166,6 +195,15 @@ def run(ctx):
             elif mclass == "ACCEPT":
                 items = engine.model_items(model)
                 pred = "\r\n".join((table.get((ty, lk, cn)) or {}).get("ser", "?") for ty, lk, tag, cn in items)
+                if c == "942" and items and items[0][2] == "13D":
+                    # to_mt_string prints field_13d after the floor limits whichever position it was read at
+                    # (known finding C01-mt942-13d-reordered); the model's items are in input order
+                    first = pred.split("\r\n")[0]
+                    lines = lib["block4"].split("\r\n")
+                    if first in lines:
+                        lines.remove(first)
+                        if "\r\n".join([first] + lines) == pred:
+                            pred = lib["block4"]
                 if pred != lib["block4"]:
                     ctx.disagreements.append({"type": "MT" + c, "origin": "%s/%s" % (name, kinds), "model": "serialisation " + pred[:200], "library": lib["block4"][:200], "replay": replay})
         if len(ctx.samples) < 5 and kinds not in ("seed", "seed-crlf", "seed-dash"):
